@@ -486,19 +486,35 @@ func (pl *plan) generate(cx *Checker, progs map[int]*XProg) []*core.Obl {
 		}
 		groups[key] = append(groups[key], i)
 	}
+	// a large source holds thousands of paths in memory while it is processed: it
+	// takes four of the NumCPU slots
 	var wg sync.WaitGroup
-	sem := make(chan struct{}, runtime.NumCPU())
+	slots := runtime.NumCPU()
+	if slots < 4 {
+		slots = 4
+	}
+	sem := make(chan struct{}, slots)
 	for _, src := range order {
+		w := 1
+		if pl.cases[groups[src][0]].src.Size() > 10 && pl.cases[groups[src][0]].bnd == nil {
+			w = 4
+		}
 		wg.Add(1)
-		sem <- struct{}{}
-		go func(idx []int) {
+		for k := 0; k < w; k++ {
+			sem <- struct{}{}
+		}
+		go func(idx []int, w int) {
 			defer wg.Done()
-			defer func() { <-sem }()
+			defer func() {
+				for k := 0; k < w; k++ {
+					<-sem
+				}
+			}()
 			grp := &caseGroup{unrolled: map[string]*Unrolled{}}
 			for _, i := range idx {
 				pl.generateCase(cx, progs, grp, i, out)
 			}
-		}(groups[src])
+		}(groups[src], w)
 	}
 	wg.Wait()
 	var all []*core.Obl
